@@ -161,8 +161,9 @@ def _file(fmt, nf, na, cell, seed, idx=0, rows=None, stored=False, trr_vf=None, 
         warnings.simplefilter("ignore")
         tr.save(fn)
     if dcd_fixed:
-        # the same frames as CHARMM / NAMD store them when some atoms are fixed: every second atom does not move
-        fixed = np.arange(0, na, 2)
+        # the same frames as CHARMM / NAMD store them when some atoms are fixed: every second atom does not move ("half",
+        # True in older replay files), all but two do not ("most"), or only the first one does not ("one")
+        fixed = {"most": np.setdiff1d(np.arange(na), [1, na - 1]), "one": np.arange(1)}.get(dcd_fixed, np.arange(0, na, 2))
         tr.xyz[1:, fixed] = tr.xyz[0, fixed]
         free = np.setdiff1d(np.arange(na), fixed)
         files.write_dcd_fixed_atoms(fn, tr.xyz, free, None if tr.unitcell_lengths is None else (tr.unitcell_lengths, tr.unitcell_angles))
@@ -209,7 +210,7 @@ def strategy(draw, tier="quick"):
     if fmt in ("pdb", "pdb.gz") and na >= 3 and draw(st.integers(0, 4)) == 0:
         case["cell"] = "tiny"          # density of the whole file 1000 / nm^3 < n / V: the CRYST1 record counts as a dummy
     if fmt == "dcd" and na >= 2 and cell != "tric" and cell != "vary" and draw(st.integers(0, 2)) == 0:
-        case["dcd_fixed"] = True       # a DCD with fixed atoms (CHARMM / NAMD): later frames store the free atoms only
+        case["dcd_fixed"] = draw(st.sampled_from(["half", "most", "one"]))       # a DCD with fixed atoms (CHARMM / NAMD): later frames store the free atoms only
     if fmt == "trr" and draw(st.booleans()):
         case["trr_vf"] = draw(st.sampled_from(["v", "f", "vf"]))       # a TRR file as GROMACS writes it with nstvout / nstfout > 0
     if fmt in ("h5", "xtc", "trr", "dcd", "nc", "netcdf", "xyz", "mdcrd", "lammpstrj", "gro") and draw(st.integers(0, 11)) == 0:
